@@ -62,7 +62,7 @@ ASSUMPTIONS = ["Ed25519 signing/verification of ipv8.keyvault is trusted: a toke
 REACH = ["fork_children_before_parent", "chain_reversed", "forged_rejected", "foreign_rejected",
          "dangling_kept_unchained", "duplicate_ignored", "content_wrong_rejected", "content_right_attached",
          "content_via_token_attached", "roundtrip_ok", "upto_roundtrip_ok", "garbage_unserialize_raised",
-         "garbage_ignored", "waiting_area_overflow", "wire_feed", "token_withheld", "token_object_shared_between_trees", "big_tree_roundtrip_ok", "full_waiting_area_woken_at_once"]
+         "garbage_ignored", "waiting_area_overflow", "wire_feed", "token_withheld", "token_object_shared_between_trees", "big_tree_roundtrip_ok", "full_waiting_area_woken_at_once", "statement_signed_twice_distinct_tokens"]
 SHRINK_FIELDS = ("order",)
 
 FORGE_BIT = 512          # first bit of the signature in the 128-byte wire form
@@ -157,16 +157,18 @@ def _base_order(rng: random.Random, shape: list) -> list:
     return [["tok", i] for i in idx]
 
 
-def _mix(rng: random.Random, n: int, order: list, extras: int) -> list:
+def _mix(rng: random.Random, n: int, order: list, extras: int, twins: bool = False) -> list:
     order = list(order)
     if rng.random() < 0.2 and len(order) > 1:
         del order[rng.randrange(len(order))]          # withheld token: its subtree must stay in the waiting area
     for _ in range(extras):
         i = rng.randrange(n)
-        kind = rng.choices(["dup", "dupc", "forged", "foreign", "dangling", "content", "garbage"],
-                           [18, 8, 20, 20, 12, 16, 6])[0]
+        kind = rng.choices(["dup", "dupc", "forged", "foreign", "dangling", "content", "garbage", "twin"],
+                           [18, 8, 20, 20, 12, 16, 6, 8 if twins else 0])[0]
         if kind == "dup":
             item = ["dup", i]
+        elif kind == "twin":
+            item = ["twin", i]
         elif kind == "dupc":
             item = ["dupc", i, rng.random() < 0.7]
         elif kind == "forged":
@@ -190,9 +192,12 @@ def _case(scn: str, seed: int, shape: list, order: list, feed: str = "gather", u
 def _mixed_case(seed: int, shape: list) -> dict:
     rng = random.Random(f"c16/mixed/{seed}")
     n = len(shape)
-    order = _mix(rng, n, _base_order(rng, shape), rng.choice([1, 2, 3, 5, 8]))
+    ecdsa = rng.random() < 0.25
+    order = _mix(rng, n, _base_order(rng, shape), rng.choice([1, 2, 3, 5, 8]), twins=ecdsa)
     case = _case("mixed", seed, shape, order, rng.choice(["gather", "gather", "wire1", "wirebatch"]),
                  rng.choice([None, None, None, None, 2, 4]))
+    if ecdsa:
+        case["curve"] = "very-low"
     if case["feed"] == "gather" and rng.random() < 0.35:
         # the application tracks a second identity and offers every Token OBJECT to both trees (alternating which one first)
         case["shared"] = True
@@ -215,9 +220,13 @@ def _random_case(seed: int, nmax: int) -> dict:
         order = order[:pos] + extra + order[pos:]
         order = _mix(rng, n, order, rng.choice([0, 2, 5]))
         return _case("overflow", seed, shape, order, rng.choice(["gather", "wirebatch"]), umax)
-    order = _mix(rng, n, order, rng.choice([0, 0, 2, 4, 8, 16]))
-    return _case("random", seed, shape, order, rng.choice(["gather", "gather", "gather", "wire1", "wirebatch"]),
+    ecdsa = rng.random() < 0.25
+    order = _mix(rng, n, order, rng.choice([0, 0, 2, 4, 8, 16]), twins=ecdsa)
+    case = _case("random", seed, shape, order, rng.choice(["gather", "gather", "gather", "wire1", "wirebatch"]),
                  rng.choice([None] * 9 + [3]))
+    if ecdsa:
+        case["curve"] = "very-low"
+    return case
 
 
 def cases(tier: str, base_seed: int):  # noqa: ANN201
@@ -255,7 +264,7 @@ def cases(tier: str, base_seed: int):  # noqa: ANN201
 def _compact(case: dict) -> dict | None:
     """Drop the tokens of the shape that the order does not name (keeping ancestors and token 0), relabel."""
     shape = case["shape"]
-    named = ("tok", "dup", "dupc", "forged", "foreign", "content")
+    named = ("tok", "dup", "dupc", "forged", "foreign", "content", "twin")
     used = {0} | {it[1] for it in case["order"] if it[0] in named}
     for i in sorted(used, reverse=True):
         p = shape[i]
@@ -368,8 +377,11 @@ def execute(case: dict) -> dict:  # noqa: C901, PLR0912, PLR0915
     from ipv8.keyvault.crypto import default_eccrypto
 
     c = Case(case, first_only=False)
-    key = default_eccrypto.generate_key("curve25519")
-    fkey = default_eccrypto.generate_key("curve25519")
+    # ("very-low" is an ECDSA curve: its signatures are randomised, so the owner signing one statement twice yields two tokens)
+    key = default_eccrypto.generate_key(case.get("curve") or "curve25519")
+    fkey = default_eccrypto.generate_key(case.get("curve") or "curve25519")      # (same wire size as the owner's tokens)
+    while fkey.pub().key_to_bin() == key.pub().key_to_bin():                      # (the simulator draws ECDSA keys from a small pool)
+        fkey = default_eccrypto.generate_key(case.get("curve") or "curve25519")
     pub = key.pub()
     shape = case["shape"]
     order = [list(it) for it in case["order"]]
@@ -410,6 +422,7 @@ def execute(case: dict) -> dict:  # noqa: C901, PLR0912, PLR0915
         return fown[i].get_plaintext_signed()
 
     dang_cache: dict = {}
+    twin_cache: dict = {}
 
     def dangling_wire(j: int) -> bytes:
         if j not in dang_cache:
@@ -458,6 +471,16 @@ def execute(case: dict) -> dict:  # noqa: C901, PLR0912, PLR0915
             return foreign_wire(it[1], fk), False, "foreign", f"foreign-{fk}{it[1]}"
         if k == "dangling":
             return dangling_wire(it[1]), True, "dangling", f"dangling{it[1]}"
+        if k == "twin":
+            # the owner issued the statement of token i (same parent, same content pointer) a second time: with randomised
+            # signatures a second, equally valid token; with deterministic ones the very same bytes (a duplicate)
+            if it[1] not in twin_cache:
+                w0 = wires[it[1]]
+                twin_cache[it[1]] = Token(w0[:32], content_hash=w0[32:64], private_key=key).get_plaintext_signed()
+            w2 = twin_cache[it[1]]
+            if w2 != wires[it[1]]:
+                c.probe("statement_signed_twice_distinct_tokens")
+            return w2, True, "tok", f"twin{it[1]}" if w2 != wires[it[1]] else f"tok{it[1]}"
         raise ValueError(f"unknown schedule item {it!r}")
 
     # ---- reference model: a pure function of the offered multiset
@@ -542,6 +565,8 @@ def execute(case: dict) -> dict:  # noqa: C901, PLR0912, PLR0915
         rv = t.receive_content(data)
         if not observe:
             return
+        if ok and rv is True:
+            note_attached(hashes[i], contents[i])
         if ok:
             if rv is not True or t.content != contents[i]:
                 c.violate("content", "content_right_rejected", f"receive_content(right content) on tok{i} returned {rv!r}, "
@@ -553,6 +578,35 @@ def execute(case: dict) -> dict:  # noqa: C901, PLR0912, PLR0915
                                                                 f"content {before!r} -> {t.content!r}")
         else:
             c.probe("content_wrong_rejected")
+
+    attached: dict = {}     # hash -> content that was accepted for the token the tree holds under that hash
+    was_element: set = set()  # ... and that was seen in elements with that content after an earlier arrival step
+
+    def note_attached(h: bytes, data: bytes) -> None:
+        t = find_token(rx, h)
+        if t is not None and t.content == data:
+            attached[h] = data
+
+    def check_attached(when: str) -> None:
+        for h, data in list(attached.items()):
+            t = find_token(rx, h)
+            if t is None:
+                del attached[h]        # pushed out of the bounded waiting area: if it is offered again it starts afresh
+                was_element.discard(h)
+                continue
+            if h not in rx.elements or h not in was_element:
+                # a WAITING token may be pushed out and offered again (without content) within one arrival step; elements never are
+                if t.content != data:
+                    del attached[h]
+                elif h in rx.elements:
+                    was_element.add(h)
+                continue
+            if t.content != data:
+                c.violate("content", "attached_content_lost",
+                          f"{when}: {lab(h)} had its content attached (it hashes to the content pointer) and the tree's token now "
+                          f"carries {t.content!r}")
+                attached[h] = t.content
+                return
 
     def shadow(clo: set) -> set:
         """Tokens of the closure that are a fork-lost token or descend from one."""
@@ -714,6 +768,8 @@ def execute(case: dict) -> dict:  # noqa: C901, PLR0912, PLR0915
                     c.probe("duplicate_ignored")
                 if it[0] == "dupc" and len(it) > 2 and it[2] and h in rx.elements and rx.elements[h].content == contents[it[1]]:
                     c.probe("content_via_token_attached")
+                if it[0] == "dupc" and len(it) > 2 and it[2] and not shared:
+                    note_attached(h, contents[it[1]])
             else:
                 blob += w
         if mode == "wire" and not direct:
@@ -723,6 +779,7 @@ def execute(case: dict) -> dict:  # noqa: C901, PLR0912, PLR0915
                 c.violate("feed", "unserialize_public_raised", f"unserialize_public of {len(blob) // chunk} well-formed chunks "
                                                                f"raised {type(e).__name__}: {e}")
         check(no, what)
+        check_attached(f"after arrival #{no} ({what})")
         log.append((what, str(outcome), len(rx.elements), len(rx.unchained)))
         c.world.trace.event("arrive", None, what, f"{outcome}|{len(rx.elements)}|{len(rx.unchained)}")
 
